@@ -39,17 +39,38 @@ def gen_list(rng):
   return '\n'.join(lines) + ('\n' if rng.random() < 0.8 else '')
 
 
+def junk_line(rng):
+  """A malformed line that fails while it is parsed (a parsable line with a NaN or infinite
+  timestamp reaches the admission rules and is counted by them before it is dropped)."""
+  while True:
+    b = ig.bad_line(rng)
+    if not b.startswith(b'm 1 '):
+      return b
+
+
+def junk_frame(rng):
+  while True:
+    body, exp = ig.bad_pickle_body(rng)
+    if not any(e is None for e in exp):
+      return body, exp
+
+
 def gen_config(rng, tier):
   s = {'USE_WHITELIST': True, 'USE_FLOW_CONTROL': True,
        'MIN_TIMESTAMP_RESOLUTION': rng.choice([0, 1, 10, 60])}
   files = {'whitelist.conf': gen_list(rng), 'blacklist.conf': gen_list(rng)}
-  return {'daemon': 'cache', 'settings': s, 'files': files}
+  ig.listener_knobs(rng, s)
+  # the daemon is not started on a whole second: the 10 s reload ticks fall inside seconds
+  t0 = 1000000.0 + rng.choice([0.0, 0.0, 0.25, 0.5, 0.5, 0.75])
+  return {'daemon': 'cache', 'settings': s, 'files': files, 't0': t0}
 
 
 def cfg_sig(cfg):
   f = cfg['files']
-  return 'res=%s wl=%r bl=%r' % (cfg['settings']['MIN_TIMESTAMP_RESOLUTION'], f['whitelist.conf'],
-                                f['blacklist.conf'])
+  s = cfg['settings']
+  return 'res=%s wl=%r bl=%r t0=%s log=%s%s' % (s['MIN_TIMESTAMP_RESOLUTION'], f['whitelist.conf'],
+                                             f['blacklist.conf'], cfg.get('t0'),
+                                             int(s['LOG_LISTENER_CONN_SUCCESS']), int(s['LOG_LISTENER_CONN_LOST']))
 
 
 def gen_dp(rng):
@@ -81,6 +102,9 @@ def gen_plan(rng, cfg, tier):
   kinds = rng.sample(['line', 'pickle', 'udp'], rng.randint(1, 3))
   import pickle
   import struct
+  # now and then the traffic also carries items no rule is about (malformed lines and
+  # frames): they must not cost any admissible datapoint around them
+  junk = 0.2 if rng.random() < 0.3 else 0.0
   for kind in kinds:
     if kind == 'udp':
       dg = []
@@ -88,13 +112,20 @@ def gen_plan(rng, cfg, tier):
       while i < len(dps):
         k = rng.choice([1, 2, 4])
         part = dps[i:i + k]
-        dg.append({'data': b''.join(ig.line_bytes(d) for d in part), 'dps': part})
+        if junk and rng.random() < junk:
+          dg.append({'data': junk_line(rng) + b''.join(ig.line_bytes(d) for d in part), 'dps': [None] + part})
+        else:
+          dg.append({'data': b''.join(ig.line_bytes(d) for d in part), 'dps': part})
         i += k
       clients.append({'kind': 'udp', 'dgrams': dg})
     elif kind == 'line':
       stream = b''
       items = []
       for d in dps:
+        if junk and rng.random() < junk:
+          start = len(stream)
+          stream += junk_line(rng)
+          items.append({'start': start, 'end': len(stream), 'dps': []})
         start = len(stream)
         stream += ig.line_bytes(d)
         items.append({'start': start, 'end': len(stream), 'dps': [d]})
@@ -106,15 +137,30 @@ def gen_plan(rng, cfg, tier):
       while i < len(dps):
         k = rng.choice([1, 2, 5])
         part = dps[i:i + k]
+        if junk and rng.random() < junk:
+          start = len(stream)
+          body, exp = junk_frame(rng)
+          stream += struct.pack('!I', len(body)) + body
+          items.append({'start': start, 'end': len(stream), 'dps': exp})
         start = len(stream)
         stream += ig.pickle_frame([(d[0], (d[1], d[2])) for d in part], rng.choice([0, 2, 4]))
         items.append({'start': start, 'end': len(stream), 'dps': part})
         i += k
       clients.append({'kind': 'pickle', 'stream': stream, 'items': items})
   extra = []
+  exact = rng.random() < 0.4        # files carry the sub-second instant they were written at
   for _ in range(rng.randint(0, 5)):
-    extra.append(['file', rng.choice(['whitelist.conf', 'blacklist.conf']), gen_list(rng)])
+    extra.append(['file', rng.choice(['whitelist.conf', 'blacklist.conf']), gen_list(rng)] +
+                 (['exact'] if exact else []))
     extra.append(['advance', rng.choice([1.0, 5.0, 9.999, 10.0, 10.0, 25.0])])
+  if exact and rng.random() < 0.5:
+    # an editor saving twice within a second, a reload tick falling in between
+    name = rng.choice(['whitelist.conf', 'blacklist.conf'])
+    burst = [['advance', rng.choice([9.75, 9.5, 9.8])], ['file', name, gen_list(rng), 'exact'],
+             ['advance', rng.choice([0.25, 0.4, 0.5])], ['file', name, gen_list(rng), 'exact'],
+             ['advance', rng.choice([10.0, 10.0, 20.0])]]
+    pos = rng.randint(0, len(extra))
+    extra[pos:pos] = burst
   plan = {'prop': PROP, 'clients': clients, 'steps': ig.gen_steps(rng, clients, extra)}
   if rng.random() < 0.3:
     # the list file is being replaced (unlink + re-create) exactly while it is re-read
